@@ -1227,8 +1227,13 @@ pub fn generate<W: Write>(mode: &str, r: &mut Rng, out: &mut W) {
         }
         "fwa" | "fwu" => {
             let t = match r.below(3) {
-                0 => gen::raw_text(r, 12).replace('\n', " "),
-                1 => gen::text_over(r, &["a", " ", "-", "é", "\x1b", "[", "m", "\u{ad}", "b"], 9),
+                // a line handed to find_words normally has no line break in it, but the function
+                // is public: one case in four keeps LF / CR
+                0 => {
+                    let t = gen::raw_text(r, 12);
+                    if r.chance(1, 4) { t } else { t.replace('\n', " ") }
+                }
+                1 => gen::text_over(r, &["a", " ", "-", "é", "\x1b", "[", "m", "\u{ad}", "b", "\n", "\r"], 9),
                 _ => gen::paragraph(r, 6, 2),
             };
             if mode == "fwu" {
@@ -1307,6 +1312,15 @@ pub fn generate<W: Write>(mode: &str, r: &mut Rng, out: &mut W) {
                     o.spl = 1;
                 }
             }
+            if mode == "fills" && r.chance(1, 2) {
+                // the shortcut's own condition: one paragraph, shorter in bytes than the width,
+                // no initial indent -- so that both code paths are compared, not one with itself
+                let t1 = t.replace("\r\n", " ").replace('\n', " ");
+                o.ii = String::new();
+                o.w = t1.len() + 1 + r.below(4);
+                return_case(vec![mode.into(), o.enc(), enc::s(&t1)], r, out);
+                return;
+            }
             vec![mode.into(), o.enc(), enc::s(&t)]
         }
         "wsl" => {
@@ -1322,6 +1336,12 @@ pub fn generate<W: Write>(mode: &str, r: &mut Rng, out: &mut W) {
             if r.chance(2, 3) {
                 let d = textwrap::core::display_width(&t);
                 o.w = r.range(d.saturating_sub(1), t.len().max(d) + 2);
+            }
+            if r.chance(1, 3) {
+                // the shortcut's own condition: byte length below the width, empty indents
+                o.ii = String::new();
+                o.si = String::new();
+                o.w = t.len() + 1 + r.below(3);
             }
             vec!["wsl".into(), o.enc(), if r.chance(1, 2) { "1" } else { "0" }.into(), enc::s(&t)]
         }
@@ -1411,7 +1431,7 @@ pub fn generate<W: Write>(mode: &str, r: &mut Rng, out: &mut W) {
                 1 => *r.pick(&[63usize, 64, 65, 127, 128, 129, 130, 131, 140, 200, 257, 300, 400]),
                 _ => r.below(60),
             };
-            let gaps = ["", "", " ", "| ", " | ", " |", "Ｈ", "é", "--", "  "];
+            let gaps = ["", "", " ", "| ", " | ", " |", "Ｈ", "é", "--", "  ", "\x1b[1m|\x1b[0m", "|\x1b", "\x1b[", "\u{200b}"];
             let cols = r.range(1, 5);
             vec![
                 "wc".into(),
@@ -1538,6 +1558,18 @@ pub fn generate<W: Write>(mode: &str, r: &mut Rng, out: &mut W) {
             } else {
                 gen::structured_text(r, 2, 9, 2, false)
             };
+            let t = if t.contains('\x1b') || t.trim().is_empty() {
+                t
+            } else {
+                // colour one word
+                let mut ws: Vec<String> = t.split(' ').map(|x| x.to_string()).collect();
+                let idxs: Vec<usize> = (0..ws.len()).filter(|&i| !ws[i].is_empty() && !ws[i].contains('\n')).collect();
+                if !idxs.is_empty() {
+                    let i = idxs[r.below(idxs.len())];
+                    ws[i] = format!("{}{}{}", r.ps(gen::SGR), ws[i], "\x1b[0m");
+                }
+                ws.join(" ")
+            };
             let mut o = gen_opts(r, &gen::display_width_probe(&t));
             if r.chance(2, 3) {
                 o.ii = String::new();
@@ -1625,6 +1657,10 @@ pub fn generate<W: Write>(mode: &str, r: &mut Rng, out: &mut W) {
             std::process::exit(2);
         }
     };
+    return_case(f, r, out);
+}
+
+fn return_case<W: Write>(f: Vec<String>, r: &mut Rng, out: &mut W) {
     let f = inject_extra_chars(f, r);
     emit(&f, out);
 }
